@@ -15,7 +15,9 @@ RULE = ('rasters <= 12x12 (mostly <= 8x8) over alphabets of 1-4 values from stru
         'holes touching the border, checkerboards / diagonal lines = 8-connected pinches, > 64 provisional region ids = lookup resize, 2xN combs with N near 63/64/127/128 whose last merge lands in the last slot of region_lookup) plus noise, shapes 1x1, 1xN, Nx1, 2xN; '
         'int32/int64/uint8/uint32/float32/float64 rasters (float values dyadic, spaced >= 0.25 so _is_close is equality); mask '
         'absent / all-true / random / structured / all-false with bool/int/float mask dtype; connectivity 4 and 8; transform absent '
-        'or dyadic affine (scales, flips, rotations, shears, offsets); 30% of the float rasters get +inf/-inf/NaN cells (inf equals only '
+        'or dyadic affine (scales, flips, rotations, shears, offsets); values and mask independently in memory layout C / Fortran copy / '
+        'transposed view / strided view / transposed strided view; integer rasters with large ids differing by 1 (1e5, 5e6, 4e9); '
+        ' 30% of the float rasters get +inf/-inf/NaN cells (inf equals only '
         'itself, NaN nothing). Thorough additionally enumerates every 0/1 raster of every '
         'shape with <= 11 cells (<= 8 with a mask: every {masked,0,1} assignment). A case is non-trivial when it has >= 1 unmasked cell; distinct by JSON encoding.')
 TRUSTED = [
@@ -219,11 +221,37 @@ def oracle_regions(case, regions):
 # ----------------------------------------------------------------------------------------------
 # running the implementation and the model
 # ----------------------------------------------------------------------------------------------
+LAYOUTS = ['C', 'F', 'T', 'S', 'ST']
+
+
+def with_layout(a, layout):
+    """the same logical (ny, nx) array in another memory layout: C-contiguous, Fortran copy, transposed view of a C array,
+    strided view into a larger buffer, transposed strided view"""
+    if layout == 'F':
+        b = np.asfortranarray(a)
+    elif layout == 'T':
+        b = np.ascontiguousarray(a.T).T
+    elif layout == 'S':
+        big = np.zeros((2 * a.shape[0] + 1, 2 * a.shape[1] + 3), dtype=a.dtype)
+        b = big[1::2, 1:2 * a.shape[1]:2]
+        b[...] = a
+    elif layout == 'ST':
+        big = np.zeros((2 * a.shape[1] + 1, 3 * a.shape[0] + 2), dtype=a.dtype)
+        b = big[:2 * a.shape[1]:2, 1:3 * a.shape[0]:3].T
+        b[...] = a
+    else:
+        b = np.ascontiguousarray(a)
+    assert b.shape == a.shape and (b == a).all() or a.dtype.kind == 'f'
+    return b
+
+
 def arrays_of(case):
     a = np.array([[num(v) for v in row] for row in case['values']], dtype='float64').reshape(case['ny'], case['nx']).astype(case['dtype'])
+    a = with_layout(a, case.get('layout', 'C'))
     m = None
     if case['mask'] is not None:
         m = np.array(case['mask'], dtype='int64').reshape(case['ny'], case['nx']).astype(case['mask_dtype'])
+        m = with_layout(m, case.get('mask_layout', 'C'))
     return a, m
 
 
@@ -240,7 +268,8 @@ def run_impl(pz, case, transform):
 def run_impl_regions(pz, case):
     a, m = arrays_of(case)
     ny, nx = a.shape
-    r = pz._calculate_regions(a.ravel(), None if m is None else m.ravel(), case['connectivity'] == 8, nx, ny)
+    r = pz._calculate_regions(np.ascontiguousarray(a).ravel(), None if m is None else np.ascontiguousarray(m).ravel(),
+                              case['connectivity'] == 8, nx, ny)
     return [int(v) for v in r]
 
 
@@ -611,17 +640,21 @@ def gen_case(rng, combos, big=0.06):
             grid = [[rng.choice(kinds) if rng.random() < p else v for v in row] for row in grid]
             name += '+nonfinite'
     elif dtype.startswith('int'):
-        off = rng.choice([0, 0, -2, 7, 1000])
+        # large adjacent ids differ by 1: closer than the float tolerance rtol=1e-5, must still be distinct regions
+        off = rng.choice([0, 0, -2, 7, 1000, 100000, 5000000, -300000])
         grid = [[off + v for v in row] for row in grid]
     else:
-        off = rng.choice([0, 0, 5, 250])
+        off = rng.choice([0, 0, 5, 250]) if dtype == 'uint8' else rng.choice([0, 5, 250, 100000, 4000000000])
         grid = [[off + v for v in row] for row in grid]
     tr = rng.choice(TRANSFORMS) if with_tr else None
     if tr is not None and rng.random() < 0.3:
         tr = [rng.choice([-2, -1, -0.5, 0, 0.5, 1, 2, 3]) for _ in range(4)] + [rng.randint(-20, 20) / 4.0 for _ in range(2)]
         tr = [tr[0], tr[1], tr[4], tr[2], tr[3], tr[5]]
+    layout = 'C' if rng.random() < 0.55 else rng.choice(LAYOUTS[1:])
+    mask_layout = 'C' if (mask is None or rng.random() < 0.55) else rng.choice(LAYOUTS[1:])
     return dict(family=name, ny=ny, nx=nx, values=grid, dtype=dtype, mask=mask, mask_dtype=mask_dtype, mask_kind=mkind,
-                connectivity=rng.choice([4, 8]), transform=None if tr is None else [float(t) for t in tr])
+                connectivity=rng.choice([4, 8]), transform=None if tr is None else [float(t) for t in tr],
+                layout=layout, mask_layout=mask_layout)
 
 
 # (raster dtype, mask dtype or None, with transform) — each distinct triple costs one Numba compilation (~1.5 s)
@@ -713,6 +746,9 @@ def check_case(ctx, pz, case, pending, use_model=True):
         ctx.violation('oracle', 'polygonize raised %s: %s' % (type(e).__name__, e), case)
         return
     key = INF_KEY if has_inf(case) else None
+    if not case['dtype'].startswith('float') and not all(isinstance(v, int) and not isinstance(v, bool) for v in col):
+        ctx.violation('oracle', 'integer raster (%s) but the returned value column holds non-integer entries %r' % (
+            case['dtype'], [type(v).__name__ for v in col][:6]), dict(case, got_column=col))
     bad = oracle_polygons(case, col, polys)
     if bad:
         ctx.violation('oracle', bad, dict(case, got_column=col, got_polygons=polys), key=key)
@@ -807,6 +843,26 @@ def run(ctx):
                             mask_kind='none' if mk is None else 'structured', connectivity=conn, transform=None)
                 ctx.count('fixed/conn%d/%s' % (conn, 'mask' if mk else 'nomask'))
                 check_case(ctx, pz, case, pending)
+    # memory layouts: values and mask independently Fortran-ordered / transposed views / strided views
+    lay_v = [[1, 1, 2, 2], [1, 3, 3, 2], [1, 1, 1, 2]]
+    lay_m = [[1, 1, 0, 1], [1, 1, 1, 1], [0, 1, 1, 1]]
+    for lv in LAYOUTS:
+        for lm in (None,) + tuple(LAYOUTS):
+            case = dict(family='layout', ny=3, nx=4, values=lay_v, dtype='int64', mask=None if lm is None else lay_m,
+                        mask_dtype=None if lm is None else 'bool', mask_kind='none' if lm is None else 'structured',
+                        connectivity=4, transform=None, layout=lv, mask_layout=lm or 'C')
+            ctx.count('layout/values-%s/mask-%s' % (lv, lm))
+            check_case(ctx, pz, case, pending)
+    # single-column INTEGER rasters with large ids that differ by 1 (closer than any float tolerance), with / without mask
+    for col_vals in ([100000, 100001, 100002], [5000000, 5000001, 5000001, 5000002, 5000001], [-300001, -300000], [100000]):
+        for mk in (None, 'bool'):
+            for conn in (4, 8):
+                nyc = len(col_vals)
+                case = dict(family='column-large-ids', ny=nyc, nx=1, values=[[v] for v in col_vals], dtype='int64',
+                            mask=None if mk is None else [[1] for _ in col_vals], mask_dtype=mk,
+                            mask_kind='none' if mk is None else 'all-true', connectivity=conn, transform=None)
+                ctx.count('column-large-ids/%s' % ('mask' if mk else 'nomask'))
+                check_case(ctx, pz, case, pending)
     for N in (63, 64, 128):
         for kind in (0, 1):
             for conn in (4, 8):
@@ -860,7 +916,10 @@ def search(ctx):
 
 def replay_case(ctx, case):
     pz = _impl()
+    case0 = case
     case = {k: case[k] for k in ('family', 'ny', 'nx', 'values', 'dtype', 'mask', 'mask_dtype', 'mask_kind', 'connectivity', 'transform')}
+    case['layout'] = case0.get('layout', 'C')
+    case['mask_layout'] = case0.get('mask_layout', 'C')
     pending = []
     check_case(ctx, pz, case, pending)
     flush(ctx, pending)
